@@ -1,7 +1,702 @@
-//! C01 harness module (not implemented yet).
+//! C01: random-VOLE shares multiply out (c + d = a*b), both variants.
+//! Real RVOLEReceiver::{new,process} / RVOLESender::process of rvole.rs and rvole_ot_variant.rs vs the
+//! extracted model (coq/Model/Rvole.v over RvoleCore.v / SoftSpoken.v / Endemic.v) with the real
+//! merlin / k256 behind the model's oracles.  Compared: round-one message, receiver state bytes, b,
+//! round-two message bytes, c, d.  Implementation-only oracle: c + d == a*b in k256 for every run.
+//! The helpers of this module are shared with c02.rs.
+use crate::oracle::*;
 use crate::util::*;
+use elliptic_curve::group::GroupEncoding;
+use elliptic_curve::ops::Reduce;
+use elliptic_curve::{Field, Group};
+use k256::{ProjectivePoint, Scalar, U256};
+use rand::{Rng, RngCore};
+use sl_oblivious::endemic_ot::{EndemicOTMsg1, EndemicOTMsg2, EndemicOTReceiver, EndemicOTSender};
+use sl_oblivious::rvole;
+use sl_oblivious::rvole_ot_variant as rvot;
+use sl_oblivious::soft_spoken::{
+    build_pprf, eval_pprf, generate_all_but_one_seed_ot, PPRFOutput, ReceiverOTSeed, Round1Output, SenderOTSeed,
+};
+use std::io::Write;
+use std::panic::{catch_unwind, AssertUnwindSafe};
 
-pub fn run(_kv: &Args) -> i32 {
-    eprintln!("c01: not implemented");
-    2
+pub const XI: usize = 512;
+pub const W: usize = 3;
+pub const AT_BYTES: usize = XI * W * 32; // 49152
+pub const ETA_OFF: usize = AT_BYTES;
+pub const MU_OFF: usize = AT_BYTES + 32;
+pub const MSG_BYTES: usize = AT_BYTES + 32 + 64; // 49248 = size_of::<RVOLEOutput>()
+pub const R1_BYTES: usize = 64 * 80 + 16 + 256 * 16; // Round1Output
+pub const EOT_BYTES: usize = 256 * 2 * 33; // EndemicOTMsg1 / EndemicOTMsg2
+pub const OT_MSG2_BYTES: usize = 2 * EOT_BYTES + MSG_BYTES;
+
+/// An rng that replays an explicit tape (the model's random tape); zeros after the end.
+pub struct TapeRng {
+    pub tape: Vec<u8>,
+    pub pos: usize,
+}
+impl RngCore for TapeRng {
+    fn next_u32(&mut self) -> u32 {
+        let mut b = [0u8; 4];
+        self.fill_bytes(&mut b);
+        u32::from_le_bytes(b)
+    }
+    fn next_u64(&mut self) -> u64 {
+        let mut b = [0u8; 8];
+        self.fill_bytes(&mut b);
+        u64::from_le_bytes(b)
+    }
+    fn fill_bytes(&mut self, dest: &mut [u8]) {
+        for d in dest.iter_mut() {
+            *d = if self.pos < self.tape.len() { self.tape[self.pos] } else { 0 };
+            self.pos += 1;
+        }
+    }
+    fn try_fill_bytes(&mut self, dest: &mut [u8]) -> Result<(), rand::Error> {
+        self.fill_bytes(dest);
+        Ok(())
+    }
+}
+impl rand::CryptoRng for TapeRng {}
+
+pub fn bit(b: &[u8], i: usize) -> bool {
+    (b[i >> 3] >> (i & 7)) & 1 == 1
+}
+pub fn scalars(l: &[Scalar]) -> String {
+    l.iter().map(hex_of_scalar).collect::<Vec<_>>().join(",")
+}
+pub fn reduce32(b: &[u8]) -> Scalar {
+    Scalar::reduce(U256::from_be_slice(b))
+}
+
+/// sender inputs: {0, 1, q-1, 2^255 mod q, random}
+pub fn input_scalar(kind: usize, r: &mut impl RngCore) -> (Scalar, &'static str) {
+    match kind % 5 {
+        0 => (Scalar::ZERO, "0"),
+        1 => (Scalar::ONE, "1"),
+        2 => (-Scalar::ONE, "q-1"),
+        3 => {
+            let mut b = [0u8; 32];
+            b[0] = 0x80;
+            (reduce32(&b), "2^255")
+        }
+        _ => {
+            let mut b = [0u8; 32];
+            r.fill_bytes(&mut b);
+            (reduce32(&b), "rnd")
+        }
+    }
+}
+
+pub fn session_id(kind: usize, r: &mut impl RngCore) -> ([u8; 32], &'static str) {
+    match kind % 3 {
+        0 => ([0u8; 32], "zero"),
+        1 => ([0xff; 32], "ones"),
+        _ => {
+            let mut s = [0u8; 32];
+            r.fill_bytes(&mut s);
+            (s, "rnd")
+        }
+    }
+}
+
+/// Seeds of the OT extension: synthetic generator, or the real Endemic -> PPRF pipeline.
+pub fn make_seeds(seed: u64, stream: &str, pipeline: bool) -> (Box<SenderOTSeed>, Box<ReceiverOTSeed>) {
+    let mut r = rng(seed, stream);
+    if !pipeline {
+        let (s, rs) = generate_all_but_one_seed_ot(&mut r);
+        return (Box::new(s), Box::new(rs));
+    }
+    let mut sid = [0u8; 32];
+    r.fill_bytes(&mut sid);
+    let mut msg1 = EndemicOTMsg1::default();
+    let recv = EndemicOTReceiver::new(&sid, &mut msg1, &mut r);
+    let mut msg2 = EndemicOTMsg2::default();
+    let sout = EndemicOTSender::process(&sid, &msg1, &mut msg2, &mut r).expect("base OT sender");
+    let rout = recv.process(&msg2).expect("base OT receiver");
+    let mut ss = Box::new(SenderOTSeed::default());
+    let mut pprf = Box::new(PPRFOutput::default());
+    build_pprf(&sid, &sout, &mut ss, &mut pprf);
+    let mut rs = Box::new(ReceiverOTSeed::default());
+    eval_pprf(&sid, &rout, &pprf, &mut rs).expect("eval_pprf");
+    (ss, rs)
+}
+
+// ------------------------------------------------------------------------------------------------
+// OT-extension variant (rvole.rs)
+
+pub struct ExtSession {
+    pub name: String,
+    pub sid: [u8; 32],
+    pub sseed: Box<SenderOTSeed>,
+    pub rseed: Box<ReceiverOTSeed>,
+    pub buf: Vec<u8>,       // initial Round1Output bytes
+    pub new_tape: Vec<u8>,  // beta (64) ++ SoftSpoken tape (16)
+    pub a: [Scalar; 2],
+    pub eta_tape: Vec<u8>,  // 64 bytes
+    pub state: Box<rvole::RVOLEReceiver>,
+    pub b: Scalar,
+    pub round1: Vec<u8>,
+    pub send: Result<(Vec<u8>, [Scalar; 2]), String>,
+}
+
+impl ExtSession {
+    pub fn beta(&self) -> &[u8] {
+        &self.new_tape[..64]
+    }
+    pub fn describe(&self) -> String {
+        format!(
+            "variant=ext case={} sid={} a={} new_tape={} eta_tape={} buf_nonzero={} random_choices={}",
+            self.name, hx(&self.sid), scalars(&self.a), hx(&self.new_tape), hx(&self.eta_tape),
+            self.buf.iter().any(|x| *x != 0), hx(&self.rseed.random_choices)
+        )
+    }
+}
+
+pub fn ext_real_recv(state: &rvole::RVOLEReceiver, msg: &[u8]) -> Result<[Scalar; 2], String> {
+    let m: Box<rvole::RVOLEOutput> = Box::new(bytemuck::pod_read_unaligned(msg));
+    match catch_unwind(AssertUnwindSafe(|| state.process(&m))) {
+        Ok(Ok(d)) => Ok(d),
+        Ok(Err(_)) => Err("err1".into()),
+        Err(_) => Err("panic".into()),
+    }
+}
+
+/// Run the real `new` and the real sender.
+pub fn ext_session(
+    name: &str, sid: [u8; 32], seeds: (Box<SenderOTSeed>, Box<ReceiverOTSeed>), buf: Vec<u8>, new_tape: Vec<u8>,
+    a: [Scalar; 2], eta_tape: Vec<u8>,
+) -> ExtSession {
+    let (sseed, rseed) = seeds;
+    let mut r1: Box<Round1Output> = Box::new(bytemuck::pod_read_unaligned(&buf));
+    let mut rng1 = TapeRng { tape: new_tape.clone(), pos: 0 };
+    let (state, b) = rvole::RVOLEReceiver::new(sid, &sseed, &mut r1, &mut rng1);
+    let round1 = bytemuck::bytes_of(&*r1).to_vec();
+    let mut out = Box::new(rvole::RVOLEOutput::default());
+    let mut rng2 = TapeRng { tape: eta_tape.clone(), pos: 0 };
+    let send = match catch_unwind(AssertUnwindSafe(|| rvole::RVOLESender::process(&sid, &rseed, &a, &r1, &mut out, &mut rng2))) {
+        Ok(Ok(c)) => Ok((bytemuck::bytes_of(&*out).to_vec(), c)),
+        Ok(Err(_)) => Err("err1".into()),
+        Err(_) => Err("panic".into()),
+    };
+    ExtSession { name: name.to_string(), sid, sseed, rseed, buf, new_tape, a, eta_tape, state, b, round1, send }
+}
+
+pub fn model_ext_new(drv: &mut Model, id: &str, s: &ExtSession) -> Result<(String, Vec<u8>, Vec<u8>), String> {
+    let r = drv.call("c01.new", &[id.to_string(), hx(&s.sid), hx(bytemuck::bytes_of(&s.sseed.otp_enc_keys)), hx(&s.buf),
+        hx(&s.new_tape[..64]), hx(&s.new_tape[64..])])?;
+    if r.len() != 3 {
+        return Err(format!("c01.new: bad result ({} fields)", r.len()));
+    }
+    Ok((r[0].clone(), unhx(&r[1]), unhx(&r[2])))
+}
+
+/// (verdict, message bytes, c)
+pub fn model_ext_send(drv: &mut Model, s: &ExtSession, round1: &[u8]) -> Result<(String, Vec<u8>, String), String> {
+    let r = drv.call("c01.send", &[hx(&s.sid), hx(&s.rseed.random_choices), hx(bytemuck::bytes_of(&s.rseed.otp_dec_keys)),
+        scalars(&s.a), hx(round1), hx(&s.eta_tape)])?;
+    match r.first().map(|x| x.as_str()) {
+        Some("ok") if r.len() == 3 => Ok(("ok".into(), unhx(&r[1]), r[2].clone())),
+        Some("err") if r.len() == 2 => Ok((format!("err{}", r[1]), vec![], String::new())),
+        Some("panic") => Ok(("panic".into(), vec![], String::new())),
+        _ => Err(format!("c01.send: bad result {:?}", r.first())),
+    }
+}
+
+/// "ok <d>" or "err<code>"
+pub fn model_recv(drv: &mut Model, fname: &str, args: &[String]) -> Result<String, String> {
+    let r = drv.call(fname, args)?;
+    match r.first().map(|x| x.as_str()) {
+        Some("ok") if r.len() == 2 => Ok(format!("ok {}", r[1])),
+        Some("err") if r.len() == 2 => Ok(format!("err{}", r[1])),
+        Some("panic") => Ok("panic".into()),
+        _ => Err(format!("{fname}: bad result {:?}", r.first())),
+    }
+}
+pub fn real_recv_str(r: &Result<[Scalar; 2], String>) -> String {
+    match r {
+        Ok(d) => format!("ok {}", scalars(d)),
+        Err(e) => e.clone(),
+    }
+}
+
+/// the property itself, in k256
+pub fn relation_holds(a: &[Scalar; 2], b: &Scalar, c: &[Scalar; 2], d: &[Scalar; 2]) -> bool {
+    (0..2).all(|i| c[i] + d[i] == a[i] * b)
+}
+
+// ------------------------------------------------------------------------------------------------
+// base-OT variant (rvole_ot_variant.rs)
+
+/// `decode_point` of endemic_ot.rs (accepts the zero-padded identity, unlike SEC1 parsing)
+pub fn real_decode(b: &[u8]) -> Option<ProjectivePoint> {
+    if b.len() != 33 {
+        return None;
+    }
+    let mut repr = <ProjectivePoint as GroupEncoding>::Repr::default();
+    AsMut::<[u8]>::as_mut(&mut repr).copy_from_slice(b);
+    Option::<ProjectivePoint>::from(ProjectivePoint::from_bytes(&repr))
+}
+/// The extracted model with its oracles.  Besides the standard oracles of oracle.rs:
+///  * `kdec`: the model's `g_dec` is the decoding function of the protocol messages;
+///  * `HN` / `HX`: the transcript oracle of drv_c01.ml.  `HN <ops>` replays a whole history on a fresh
+///    merlin transcript (like `H`) and keeps the transcript; `HX <ops>` applies further operations to
+///    the kept transcript -- the driver sends it only when the previous query's history is a prefix
+///    of the new one, so the answer is the one a full replay gives.
+pub struct Model {
+    pub drv: Driver,
+    t: Option<merlin::Transcript>,
+    labels: std::collections::HashMap<Vec<u8>, &'static [u8]>,
+}
+impl Model {
+    pub fn spawn() -> Self {
+        Model { drv: Driver::spawn(), t: None, labels: Default::default() }
+    }
+    pub fn queries(&self) -> u64 {
+        self.drv.queries
+    }
+    pub fn call(&mut self, name: &str, args: &[String]) -> Result<Vec<String>, String> {
+        let Model { drv, t, labels } = self;
+        drv.run_with(name, args, &mut |n, a| oracle(t, labels, n, a))
+    }
+}
+fn leak(labels: &mut std::collections::HashMap<Vec<u8>, &'static [u8]>, l: Vec<u8>) -> &'static [u8] {
+    if let Some(r) = labels.get(&l) {
+        return r;
+    }
+    let r: &'static [u8] = Box::leak(l.clone().into_boxed_slice());
+    labels.insert(l, r);
+    r
+}
+fn apply_ops(t: &mut Option<merlin::Transcript>, labels: &mut std::collections::HashMap<Vec<u8>, &'static [u8]>, ops: &str) -> Vec<u8> {
+    let mut last = vec![];
+    for op in ops.split(',') {
+        let f: Vec<&str> = op.split(':').collect();
+        match f[0] {
+            "I" => *t = Some(merlin::Transcript::new(leak(labels, unhx(f[1])))),
+            "M" => t.as_mut().expect("op before init").append_message(leak(labels, unhx(f[1])), &unhx(f[2])),
+            "U" => t.as_mut().expect("op before init").append_u64(leak(labels, unhx(f[1])), u64::from_str_radix(f[2], 16).expect("u64")),
+            "C" => {
+                let mut buf = vec![0u8; usize::from_str_radix(f[2], 16).expect("len")];
+                t.as_mut().expect("op before init").challenge_bytes(leak(labels, unhx(f[1])), &mut buf);
+                last = buf;
+            }
+            _ => panic!("bad transcript op {op}"),
+        }
+    }
+    last
+}
+fn oracle(t: &mut Option<merlin::Transcript>, labels: &mut std::collections::HashMap<Vec<u8>, &'static [u8]>, name: &str, a: &[&str]) -> Option<Vec<String>> {
+    match name {
+        "kdec" => Some(match real_decode(&unhx(a[0])) {
+            Some(p) => vec!["1".into(), point_hex(&p)],
+            None => vec!["0".into()],
+        }),
+        "HN" => {
+            *t = None;
+            Some(vec![hx(&apply_ops(t, labels, a[0]))])
+        }
+        "HX" => Some(vec![hx(&apply_ops(t, labels, a[0]))]),
+        _ => None,
+    }
+}
+
+pub struct EotRecvTape {
+    pub bits: [u8; 32],
+    pub tas: Vec<Scalar>,
+    pub ros: Vec<ProjectivePoint>,
+}
+/// replay of the rng stream exactly as `EndemicOTReceiver::new` consumes it
+pub fn eot_recv_tape(r: &mut impl RngCore) -> EotRecvTape {
+    // rvole_ot_variant / endemic_ot require CryptoRng only at the call site; the replica uses the same calls
+    struct W<'a, R: RngCore>(&'a mut R);
+    impl<'a, R: RngCore> RngCore for W<'a, R> {
+        fn next_u32(&mut self) -> u32 { self.0.next_u32() }
+        fn next_u64(&mut self) -> u64 { self.0.next_u64() }
+        fn fill_bytes(&mut self, d: &mut [u8]) { self.0.fill_bytes(d) }
+        fn try_fill_bytes(&mut self, d: &mut [u8]) -> Result<(), rand::Error> { self.0.try_fill_bytes(d) }
+    }
+    let mut w = W(r);
+    let bits: [u8; 32] = w.gen();
+    let tas: Vec<Scalar> = (0..256).map(|_| Scalar::random(&mut w)).collect();
+    let ros: Vec<ProjectivePoint> = (0..256).map(|_| ProjectivePoint::random(&mut w)).collect();
+    EotRecvTape { bits, tas, ros }
+}
+fn points(l: &[ProjectivePoint]) -> String {
+    l.iter().map(point_hex).collect::<Vec<_>>().join(",")
+}
+
+pub struct OtSession {
+    pub name: String,
+    pub seed: u64,
+    pub sid: [u8; 32],
+    pub a: [Scalar; 2],
+    pub tape_a: EotRecvTape,
+    pub tape_b: EotRecvTape,
+    pub tbs_a: Vec<Scalar>, // t_b_0, t_b_1 per instance
+    pub tbs_b: Vec<Scalar>,
+    pub eta_tape: Vec<u8>,
+    pub state: Box<rvot::RVOLEReceiver>,
+    pub b: Scalar,
+    pub msg1: Vec<u8>,
+    pub send: Result<(Vec<u8>, [Scalar; 2]), String>,
+}
+
+impl OtSession {
+    pub fn recv_stream(&self) -> String {
+        format!("c01-ot-recv-{}", self.name)
+    }
+    pub fn send_stream(&self) -> String {
+        format!("c01-ot-send-{}", self.name)
+    }
+    pub fn beta(&self) -> Vec<u8> {
+        let mut b = self.tape_a.bits.to_vec();
+        b.extend_from_slice(&self.tape_b.bits);
+        b
+    }
+    pub fn describe(&self) -> String {
+        format!("variant=ot case={} seed={} sid={} a={} recv_stream={} send_stream={}", self.name, self.seed, hx(&self.sid),
+            scalars(&self.a), self.recv_stream(), self.send_stream())
+    }
+    /// fresh copies of the real receiver state and of the two base-OT receivers (`process` consumes them)
+    pub fn real_new(&self) -> (Box<rvot::RVOLEReceiver>, Box<EndemicOTReceiver>, Box<EndemicOTReceiver>, Scalar, Vec<u8>) {
+        let mut r = rng(self.seed, &self.recv_stream());
+        let mut m1 = Box::new(rvot::RVOLEMsg1::default());
+        let (st, ra, rb, b) = rvot::RVOLEReceiver::new(self.sid, &mut m1, &mut r);
+        (st, ra, rb, b, bytemuck::bytes_of(&*m1).to_vec())
+    }
+    pub fn real_recv(&self, msg2: &[u8]) -> Result<[Scalar; 2], String> {
+        let (st, ra, rb, _, _) = self.real_new();
+        let m: Box<rvot::RVOLEMsg2> = Box::new(bytemuck::pod_read_unaligned(msg2));
+        match catch_unwind(AssertUnwindSafe(|| st.process(&m, ra, rb))) {
+            Ok(Ok(d)) => Ok(d),
+            Ok(Err(e)) => Err(if e == "Decode error" { "err2".into() } else { "err1".into() }),
+            Err(_) => Err("panic".into()),
+        }
+    }
+}
+
+pub fn ot_session(seed: u64, name: &str, sid: [u8; 32], a: [Scalar; 2]) -> OtSession {
+    let recv_stream = format!("c01-ot-recv-{name}");
+    let send_stream = format!("c01-ot-send-{name}");
+    // replicas of the two rng streams
+    let mut rr = rng(seed, &recv_stream);
+    let tape_a = eot_recv_tape(&mut rr);
+    let tape_b = eot_recv_tape(&mut rr);
+    let mut sr = rng(seed, &send_stream);
+    let tbs_a: Vec<Scalar> = (0..512).map(|_| Scalar::random(&mut sr)).collect();
+    let tbs_b: Vec<Scalar> = (0..512).map(|_| Scalar::random(&mut sr)).collect();
+    let mut eta_tape = vec![0u8; 64];
+    sr.fill_bytes(&mut eta_tape);
+    // the real run
+    let mut r = rng(seed, &recv_stream);
+    let mut m1 = Box::new(rvot::RVOLEMsg1::default());
+    let (state, _ra, _rb, b) = rvot::RVOLEReceiver::new(sid, &mut m1, &mut r);
+    let msg1 = bytemuck::bytes_of(&*m1).to_vec();
+    let mut out = Box::new(rvot::RVOLEMsg2::default());
+    let mut r2 = rng(seed, &send_stream);
+    let send = match catch_unwind(AssertUnwindSafe(|| rvot::RVOLESender::process(&sid, &a, &m1, &mut out, &mut r2))) {
+        Ok(Ok(c)) => Ok((bytemuck::bytes_of(&*out).to_vec(), c)),
+        Ok(Err(_)) => Err("err3".into()),
+        Err(_) => Err("panic".into()),
+    };
+    OtSession { name: name.to_string(), seed, sid, a, tape_a, tape_b, tbs_a, tbs_b, eta_tape, state, b, msg1, send }
+}
+
+/// (b, msg1 bytes, beta)
+pub fn model_ot_new(drv: &mut Model, id: &str, s: &OtSession) -> Result<(String, Vec<u8>, Vec<u8>), String> {
+    let r = drv.call("c01.ot_new", &[id.to_string(), hx(&s.sid),
+        hx(&s.tape_a.bits), scalars(&s.tape_a.tas), points(&s.tape_a.ros),
+        hx(&s.tape_b.bits), scalars(&s.tape_b.tas), points(&s.tape_b.ros)])?;
+    if r.first().map(|x| x.as_str()) != Some("ok") || r.len() != 5 {
+        return Err(format!("c01.ot_new: {:?}", r.first()));
+    }
+    let mut m1 = unhx(&r[2]);
+    m1.extend_from_slice(&unhx(&r[3]));
+    Ok((r[1].clone(), m1, unhx(&r[4])))
+}
+
+/// (verdict, RVOLEMsg2 bytes, c)
+pub fn model_ot_send(drv: &mut Model, s: &OtSession, msg1: &[u8]) -> Result<(String, Vec<u8>, String), String> {
+    let r = drv.call("c01.ot_send", &[hx(&s.sid), scalars(&s.a), hx(&msg1[..EOT_BYTES]), hx(&msg1[EOT_BYTES..]),
+        scalars(&s.tbs_a), scalars(&s.tbs_b), hx(&s.eta_tape)])?;
+    if r.len() != 5 {
+        return Err(format!("c01.ot_send: bad result ({} fields)", r.len()));
+    }
+    let mut m = unhx(&r[1]);
+    m.extend_from_slice(&unhx(&r[2]));
+    m.extend_from_slice(&unhx(&r[3]));
+    Ok((r[0].clone(), m, r[4].clone()))
+}
+
+pub fn ot_recv_args(id: &str, msg2: &[u8]) -> Vec<String> {
+    vec![id.to_string(), hx(&msg2[..EOT_BYTES]), hx(&msg2[EOT_BYTES..2 * EOT_BYTES]), hx(&msg2[2 * EOT_BYTES..])]
+}
+
+fn first_diff(a: &[u8], b: &[u8]) -> String {
+    if a.len() != b.len() {
+        return format!("lengths {} vs {}", a.len(), b.len());
+    }
+    match a.iter().zip(b).position(|(x, y)| x != y) {
+        Some(i) => format!("first difference at byte {i}: impl {:02x} model {:02x}", a[i], b[i]),
+        None => "equal".into(),
+    }
+}
+
+pub struct Report {
+    pub n_eval: u64,
+    pub n_nontrivial: u64,
+    pub kinds: std::collections::BTreeMap<String, u64>,
+    pub disagree: Vec<String>,
+    pub oracle: Vec<String>,
+    pub samples: Vec<String>,
+}
+impl Report {
+    pub fn new() -> Self {
+        Report { n_eval: 0, n_nontrivial: 0, kinds: Default::default(), disagree: vec![], oracle: vec![], samples: vec![] }
+    }
+    pub fn kind(&mut self, k: &str) {
+        *self.kinds.entry(k.to_string()).or_default() += 1;
+    }
+    pub fn write(&self, out: &str, queries: u64) {
+        let mut f = std::fs::File::create(format!("{out}/result.txt")).unwrap();
+        writeln!(f, "evaluations {}", self.n_eval).unwrap();
+        writeln!(f, "mutations {}", self.n_nontrivial).unwrap();
+        writeln!(f, "oracle_queries {queries}").unwrap();
+        for (k, v) in &self.kinds {
+            writeln!(f, "kind {k} {v}").unwrap();
+        }
+        for s in &self.samples {
+            writeln!(f, "SAMPLE {s}").unwrap();
+        }
+        for d in &self.disagree {
+            writeln!(f, "DISAGREE {d}").unwrap();
+        }
+        for d in &self.oracle {
+            writeln!(f, "ORACLE {d}").unwrap();
+        }
+    }
+}
+
+fn run_ext_case(drv: &mut Model, rep: &mut Report, log: &mut std::fs::File, s: &ExtSession) {
+    let id = format!("x-{}", s.name);
+    let t0 = std::time::Instant::now();
+    // round one
+    let tq = drv.queries(); let tt = std::time::Instant::now();
+    let rnew = model_ext_new(drv, &id, s);
+    if std::env::var("C01_TIMING").is_ok() { eprintln!("new: {} ms, {} queries", tt.elapsed().as_millis(), drv.queries() - tq); }
+    match rnew {
+        Ok((mb, mr1, mstate)) => {
+            rep.n_eval += 1;
+            if mb != hex_of_scalar(&s.b) {
+                rep.disagree.push(format!("new: b impl {} model {mb} -- {}", hex_of_scalar(&s.b), s.describe()));
+            }
+            if mr1 != s.round1 {
+                rep.disagree.push(format!("new: round-one message, {} -- {}", first_diff(&s.round1, &mr1), s.describe()));
+            }
+            let st = bytemuck::bytes_of(&*s.state);
+            if mstate != st {
+                rep.disagree.push(format!("new: receiver state bytes, {} -- {}", first_diff(st, &mstate), s.describe()));
+            }
+        }
+        Err(e) => rep.disagree.push(format!("new: model failed: {e} -- {}", s.describe())),
+    }
+    // beta is the first field after the session id in the receiver state
+    if &bytemuck::bytes_of(&*s.state)[32..96] != s.beta() {
+        rep.disagree.push(format!("receiver state bytes 32..96 are not beta -- {}", s.describe()));
+    }
+    // round two
+    let (impl_v, impl_msg, impl_c) = match &s.send {
+        Ok((m, c)) => ("ok".to_string(), m.clone(), scalars(c)),
+        Err(e) => (e.clone(), vec![], String::new()),
+    };
+    let tq = drv.queries(); let tt = std::time::Instant::now();
+    let rsend = model_ext_send(drv, s, &s.round1);
+    if std::env::var("C01_TIMING").is_ok() { eprintln!("send: {} ms, {} queries", tt.elapsed().as_millis(), drv.queries() - tq); }
+    match rsend {
+        Ok((v, m, c)) => {
+            rep.n_eval += 1;
+            if v != impl_v {
+                rep.disagree.push(format!("send: verdict impl {impl_v} model {v} -- {}", s.describe()));
+            } else if v == "ok" {
+                if m != impl_msg {
+                    rep.disagree.push(format!("send: round-two message, {} -- {}", first_diff(&impl_msg, &m), s.describe()));
+                }
+                if c != impl_c {
+                    rep.disagree.push(format!("send: c impl {impl_c} model {c} -- {}", s.describe()));
+                }
+            }
+        }
+        Err(e) => rep.disagree.push(format!("send: model failed: {e} -- {}", s.describe())),
+    }
+    // receiver, and the property itself
+    if let Ok((msg, c)) = &s.send {
+        let d = ext_real_recv(&s.state, msg);
+        let tq = drv.queries(); let tt = std::time::Instant::now();
+        let rrecv = model_recv(drv, "c01.recv", &[id.clone(), hx(msg)]);
+        if std::env::var("C01_TIMING").is_ok() { eprintln!("recv: {} ms, {} queries", tt.elapsed().as_millis(), drv.queries() - tq); }
+        match rrecv {
+            Ok(mv) => {
+                rep.n_eval += 1;
+                if mv != real_recv_str(&d) {
+                    rep.disagree.push(format!("process: impl {} model {mv} -- {}", real_recv_str(&d), s.describe()));
+                }
+            }
+            Err(e) => rep.disagree.push(format!("process: model failed: {e} -- {}", s.describe())),
+        }
+        match &d {
+            Ok(d) => {
+                if !relation_holds(&s.a, &s.b, c, d) {
+                    rep.oracle.push(format!("c + d != a*b: b={} c={} d={} -- {}", hex_of_scalar(&s.b), scalars(c), scalars(d), s.describe()));
+                }
+                if s.a.iter().any(|x| !bool::from(x.is_zero())) {
+                    rep.n_nontrivial += 1;
+                }
+                if rep.samples.len() < 3 {
+                    rep.samples.push(format!("{}: b={} c={} d={} (c+d = a*b holds)", s.describe().chars().take(160).collect::<String>(),
+                        hex_of_scalar(&s.b), scalars(c), scalars(d)));
+                }
+            }
+            Err(e) => rep.oracle.push(format!("honest round-two message not accepted ({e}) -- {}", s.describe())),
+        }
+    } else {
+        rep.oracle.push(format!("honest round-one message rejected by the sender ({impl_v}) -- {}", s.describe()));
+    }
+    let _ = drv.call("c01.drop", &[id]);
+    writeln!(log, "{} impl_verdict={impl_v} b={} model_time_ms={}", s.describe(), hex_of_scalar(&s.b), t0.elapsed().as_millis()).unwrap();
+}
+
+fn run_ot_case(drv: &mut Model, rep: &mut Report, log: &mut std::fs::File, s: &OtSession) {
+    let id = format!("o-{}", s.name);
+    let t0 = std::time::Instant::now();
+    match model_ot_new(drv, &id, s) {
+        Ok((mb, m1, beta)) => {
+            rep.n_eval += 1;
+            if mb != hex_of_scalar(&s.b) {
+                rep.disagree.push(format!("ot new: b impl {} model {mb} -- {}", hex_of_scalar(&s.b), s.describe()));
+            }
+            if m1 != s.msg1 {
+                rep.disagree.push(format!("ot new: message 1, {} -- {}", first_diff(&s.msg1, &m1), s.describe()));
+            }
+            if beta != &bytemuck::bytes_of(&*s.state)[32..96] {
+                rep.disagree.push(format!("ot new: beta differs from receiver state bytes 32..96 -- {}", s.describe()));
+            }
+        }
+        Err(e) => rep.disagree.push(format!("ot new: model failed: {e} -- {}", s.describe())),
+    }
+    if bytemuck::bytes_of(&*s.state)[32..96] != s.beta()[..] {
+        rep.disagree.push(format!("ot: replayed choice bits differ from receiver state bytes 32..96 (rng replay order) -- {}", s.describe()));
+    }
+    let (impl_v, impl_msg, impl_c) = match &s.send {
+        Ok((m, c)) => ("ok".to_string(), m.clone(), scalars(c)),
+        Err(e) => (e.clone(), vec![], String::new()),
+    };
+    match model_ot_send(drv, s, &s.msg1) {
+        Ok((v, m, c)) => {
+            rep.n_eval += 1;
+            if v != impl_v {
+                rep.disagree.push(format!("ot send: verdict impl {impl_v} model {v} -- {}", s.describe()));
+            } else if v == "ok" {
+                if m != impl_msg {
+                    rep.disagree.push(format!("ot send: message 2, {} -- {}", first_diff(&impl_msg, &m), s.describe()));
+                }
+                if c != impl_c {
+                    rep.disagree.push(format!("ot send: c impl {impl_c} model {c} -- {}", s.describe()));
+                }
+            }
+        }
+        Err(e) => rep.disagree.push(format!("ot send: model failed: {e} -- {}", s.describe())),
+    }
+    if let Ok((msg, c)) = &s.send {
+        let d = s.real_recv(msg);
+        match model_recv(drv, "c01.ot_recv", &ot_recv_args(&id, msg)) {
+            Ok(mv) => {
+                rep.n_eval += 1;
+                if mv != real_recv_str(&d) {
+                    rep.disagree.push(format!("ot process: impl {} model {mv} -- {}", real_recv_str(&d), s.describe()));
+                }
+            }
+            Err(e) => rep.disagree.push(format!("ot process: model failed: {e} -- {}", s.describe())),
+        }
+        match &d {
+            Ok(d) => {
+                if !relation_holds(&s.a, &s.b, c, d) {
+                    rep.oracle.push(format!("c + d != a*b: b={} c={} d={} -- {}", hex_of_scalar(&s.b), scalars(c), scalars(d), s.describe()));
+                }
+                if s.a.iter().any(|x| !bool::from(x.is_zero())) {
+                    rep.n_nontrivial += 1;
+                }
+                if rep.samples.len() < 5 {
+                    rep.samples.push(format!("{}: b={} c={} d={} (c+d = a*b holds)", s.describe(), hex_of_scalar(&s.b), scalars(c), scalars(d)));
+                }
+            }
+            Err(e) => rep.oracle.push(format!("honest message 2 not accepted ({e}) -- {}", s.describe())),
+        }
+    } else {
+        rep.oracle.push(format!("honest message 1 rejected by the sender ({impl_v}) -- {}", s.describe()));
+    }
+    let _ = drv.call("c01.drop", &[id]);
+    writeln!(log, "{} impl_verdict={impl_v} b={} model_time_ms={}", s.describe(), hex_of_scalar(&s.b), t0.elapsed().as_millis()).unwrap();
+}
+
+/// The session of case `k` of the OT-extension variant (deterministic in (seed, k)).
+pub fn ext_case(seed: u64, k: usize) -> ExtSession {
+    let mut r = rng(seed, &format!("c01-ext-{k}"));
+    let (a0, n0) = input_scalar(k, &mut r);
+    let (a1, n1) = input_scalar(k / 5 + k + 1, &mut r);
+    let (sid, sn) = session_id(k, &mut r);
+    let pipeline = k % 3 == 2;
+    let dirty = k % 4 == 3;
+    let mut buf = vec![0u8; R1_BYTES];
+    if dirty {
+        r.fill_bytes(&mut buf);
+    }
+    let mut new_tape = vec![0u8; 80];
+    r.fill_bytes(&mut new_tape);
+    match k % 11 {
+        5 => new_tape[..64].iter_mut().for_each(|x| *x = 0),
+        7 => new_tape[..64].iter_mut().for_each(|x| *x = 0xff),
+        _ => {}
+    }
+    let mut eta_tape = vec![0u8; 64];
+    r.fill_bytes(&mut eta_tape);
+    let name = format!("{k}:a=({n0},{n1}):sid={sn}:seeds={}:buf={}", if pipeline { "pipeline" } else { "synthetic" }, if dirty { "reused" } else { "default" });
+    ext_session(&name, sid, make_seeds(seed, &format!("c01-seeds-{k}"), pipeline), buf, new_tape, [a0, a1], eta_tape)
+}
+
+pub fn ot_case(seed: u64, k: usize) -> OtSession {
+    let mut r = rng(seed, &format!("c01-ot-{k}"));
+    let (a0, n0) = input_scalar(k + 2, &mut r);
+    let (a1, n1) = input_scalar(k / 5 + 2 * k, &mut r);
+    let (sid, sn) = session_id(k + 1, &mut r);
+    ot_session(seed, &format!("{k}:a=({n0},{n1}):sid={sn}"), sid, [a0, a1])
+}
+
+pub fn run(kv: &Args) -> i32 {
+    let seed = kv.u64("seed", 1);
+    let out = kv.str("out", "/verif/build/run/C01");
+    std::fs::create_dir_all(&out).unwrap();
+    let (n_ext, n_ot) = if kv.thorough() { (150, 60) } else { (kv.u64("n_ext", 6) as usize, kv.u64("n_ot", 3) as usize) };
+    let mut drv = Model::spawn();
+    let mut rep = Report::new();
+    let mut log = std::fs::File::create(format!("{out}/cases.txt")).unwrap();
+    let only = kv.get("only").map(|s| s.to_string());
+    for k in 0..n_ext {
+        if let Some(o) = &only {
+            if *o != format!("ext{k}") { continue; }
+        }
+        let s = ext_case(seed, k);
+        rep.kind(if s.name.contains("pipeline") { "ext-pipeline-seeds" } else { "ext-synthetic-seeds" });
+        run_ext_case(&mut drv, &mut rep, &mut log, &s);
+    }
+    for k in 0..n_ot {
+        if let Some(o) = &only {
+            if *o != format!("ot{k}") { continue; }
+        }
+        let s = ot_case(seed, k);
+        rep.kind("base-ot-variant");
+        run_ot_case(&mut drv, &mut rep, &mut log, &s);
+    }
+    rep.write(&out, drv.queries());
+    0
 }
